@@ -227,6 +227,47 @@ def sweep(L, limit=None):
     return cases, nontrivial, fails
 
 
+def sweep_holes(L, limit=None):
+    """'logs ... after compaction': every log of sweep() with one whole data batch deleted (compaction removed all its
+    records: the offsets stay unused, the broker's aborted-transaction index still names the transaction by its original first
+    offset), fetched from every batch boundary at or before the hole and from inside the hole"""
+    cases, fails = 0, []
+    for n in range(2, L + 1):
+        for seq in itertools.product(EVENTS, repeat=n):
+            built = build(seq)
+            if built is None:
+                continue
+            batches, aborted_all, visible, data = built
+            for k, gone in enumerate(batches):
+                if gone["control"] is not None:
+                    continue
+                log = batches[:k] + batches[k + 1:]
+                if not log:
+                    continue
+                lost = set(gone["offsets"])
+                starts = {b["base"] for b in log} | {gone["base"], gone["base"] + 1}
+                for fo in sorted(starts):
+                    sl = [b for b in log if b["next"] > fo]
+                    if not sl:
+                        continue
+                    aborted = [(p, first) for p, first, marker in aborted_all if marker >= sl[0]["base"]]
+                    for iso in (READ_UNCOMMITTED, READ_COMMITTED):
+                        cases += 1
+                        truth = sorted(o for o in (visible if iso == READ_COMMITTED else data) if o >= fo and o not in lost)
+                        want, want_nfo = deliver(sl, aborted, fo, iso)
+                        try:
+                            got, nfo = run_real(sl, aborted, fo, iso)
+                        except Exception as e:
+                            got, nfo = "raised %s: %s" % (type(e).__name__, e), None
+                        if got != truth or got != want or nfo != sl[-1]["next"]:
+                            fails.append({"events": list(seq), "deleted_batch": k, "fetch_offset": fo, "isolation": iso,
+                                          "aborted_index": aborted, "delivered": got, "java_filter": want, "ground_truth": truth,
+                                          "position": nfo, "log_end": sl[-1]["next"]})
+                            if limit and len(fails) >= limit:
+                                return cases, fails
+    return cases, fails
+
+
 def main():
     ap = argparse.ArgumentParser()
     ap.add_argument("--tier", default="quick")
@@ -238,6 +279,12 @@ def main():
           "bound": "all event sequences of length <= %d over %s, every batch-boundary cut, fetch offset at or inside the first "
                    "batch, both isolation levels" % (L, EVENTS),
           "failures": fails, "replay": {"script": REPLAY}})
+    Lh = 4 if a.tier == "quick" else 5
+    cases, fails = sweep_holes(Lh, limit=10)
+    emit({"name": "isolation-filter-compacted-logs", "exhaustive": True, "cases": cases, "distinct_nontrivial": cases,
+          "bound": "all event sequences of length <= %d with one whole data batch deleted (an offset hole), fetched from every batch "
+                   "boundary and from inside the hole, both isolation levels; against the ground truth and the Java filter" % Lh,
+          "failures": fails, "replay": {"script": REPLAY_HOLES}})
     Lb = 4 if a.tier == "quick" else 5
     cases, fails = sweep_bytes(Lb, limit=10)
     emit({"name": "isolation-filter-over-real-bytes", "exhaustive": True, "cases": cases, "distinct_nontrivial": cases,
@@ -245,6 +292,16 @@ def main():
                    "with the KIP-98 marker key), every batch-boundary cut, both isolation levels, through the compiled and the "
                    "pure-Python decoders into the real PartitionRecords; compared with the ground truth" % Lb,
           "failures": fails, "replay": {"script": REPLAY_BYTES}})
+
+
+REPLAY_HOLES = '''
+import sys
+sys.path.insert(0, "/verif")
+from bounded import C08
+cases, fails = C08.sweep_holes(3, limit=1)
+VIOLATED = bool(fails)
+DETAIL = "real PartitionRecords over compacted logs, %d cases: %r" % (cases, fails[:1])
+'''
 
 
 REPLAY_BYTES = '''
